@@ -24,7 +24,9 @@ def _profile(F, fn, lenpat):
             if cn.endswith("HashChain::iterate"):
                 prof["iterate"].append(norm(",".join(flow.describe(b, a) for a in t["args"][1:])))
             elif cn.endswith("prefix_compare"):
-                prof["prefix_compare"].append(norm(" ; ".join(flow.describe(b, a) for a in t["args"])))
+                # the third argument (best length so far) only steers prefix_compare's early exit; the slices and the
+                # maximum length decide the result
+                prof["prefix_compare"].append(norm(" ; ".join(flow.describe(b, t["args"][i]) for i in (0, 1, 3))))
         elif t["k"] == "switch" and not t.get("exp"):
             d = norm(flow.describe(b, t["d"]))
             if re.match(r"^(Gt|Ge|Lt|Le)\(next\(into_iter\(.*iterate\(.*\)\)\) as Some\.0, min\(", d):
